@@ -18,6 +18,7 @@ from .load import unparse
 SIG = sp.Function("SIG")  # uninterpreted linear reduction over the panel / element axes
 SIGA = sp.Function("SIGA")  # reduction over one named axis: SIGA(expr, axis)
 CROSS = sp.Function("CROSS")  # vector product along the last axis (bilinear, uninterpreted)
+MAXF = sp.Function("MAXF")  # maximum over all elements (uninterpreted)
 EYE = sp.Symbol("EYE")  # identity Jacobian of an array with respect to itself (element-wise)
 
 POSITIVE = ("t_over_c", "lengths_spanwise", "cfg:surface['k_lam']", "cfg:surface['c_max_t']", "rho", "v", "S_ref", "S_ref_total", "speed_of_sound", "Mach_number", "W0", "R", "CT", "re", "mu", "load_factor", "_structural_mass", "_S_ref", "chords", "widths", "lengths", "radius", "thickness", "A", "Iy", "Iz", "J", "element_lengths")
@@ -502,6 +503,9 @@ class SymX(Domain):
         if isinstance(node, ast.Call):
             fn = unparse(node.func)
             short = fn.split(".")[-1]
+            # callee resolved by the interpreter (aliases such as nlog = np.log)
+            if isinstance(v.extra, tuple) and v.extra and v.extra[0] in ("ufunc", "reduce") and isinstance(v.extra[1], str):
+                short = v.extra[1]
             args = [a.value if isinstance(a, ast.Starred) else a for a in node.args]
             ads = [self.of(a) for a in args]
             mod = it.frames[-1].func.mod
@@ -551,6 +555,8 @@ class SymX(Domain):
                 return None
             if short == "cross" and len(ads) >= 2 and ads[0] is not None and ads[1] is not None and not isinstance(ads[0], sp.MatrixBase) and not isinstance(ads[1], sp.MatrixBase):
                 return CROSS(ads[0], ads[1])
+            if short in ("max", "amax") and ads and ads[0] is not None and len(args) == 1 and not node.keywords:
+                return MAXF(ads[0]) if has_array(ads[0], self.table) else ads[0]
             if short in ("eye", "identity"):
                 return EYE
             if short in ("ones", "ones_like"):
@@ -623,6 +629,8 @@ def _component_key(sl):
 
 
 def _literal_index_key(reg):
+    """key of an element store: literal indices, ':' for full axes and '*' for
+    the generic element of a range loop (row-generic definition)."""
     if reg in (None, "whole"):
         return None
     key = []
@@ -631,6 +639,8 @@ def _literal_index_key(reg):
             key.append(":")
         elif ax[0] == "index" and ax[1].is_number:
             key.append(str(int(ax[1])))
+        elif ax[0] == "index" and isinstance(ax[1], sp.Symbol) and "_L" in ax[1].name:
+            key.append("*")
         else:
             return None
     return ",".join(key)
